@@ -200,168 +200,253 @@ pub fn __as_f64<T: ToF64>(x: T) -> (r: f64) ensures r == x.to_f64_spec() { x.__t
 // R13: identity on f64 (see rule R13 of the extractor)
 pub fn __idf(x: f64) -> (r: f64) ensures r == x { x }
 
-// ---- extracted from src/solve/data.rs: struct RegretParams ----
-#[derive(Clone, Copy)]
-pub struct RegretParams {
-    /// The discount factor for positive cumulative regret or `α`.
-    ///
-    /// Positive cumulative regrets are discounted by `tᵅ/(tᵅ + 1)` every iteration `t`. Setting
-    /// alpha closer to infinity implies no discounting, while setting it at negative infinity
-    /// means imediate forgetting. Note that any non-positive value is probably not desired.
-    pub pos_regret: f64,
-    /// The discount factor for negative cumulative regret or `β`
-    ///
-    /// Negative cumulative regrets are discounted by `tᵝ/(tᵝ + 1)` every iteration `t`. The
-    /// values are the same as for positive regrets. Setting this to a non-positive value will
-    /// prevent the cumulative regret of negative regret actions from approaching negative
-    /// infinity, which can make pruning negative regret actions impossible.
-    pub neg_regret: f64,
-    /// The average strategy discount factor `γ`
-    ///
-    /// The average strategy is discounted by `(ᵗ⁄ₜ₊₁)ᵞ` every iteration t, which is equivalent to
-    /// weighting each strategy update by `tᵞ`.
-    pub strat: f64,
-    /// The scale for picking a strategy when all regrets are negative
-    ///
-    /// If all actions have negative regret, the chosen strategy can be anything. We use the
-    /// softmax of the regrets times this weight. Setting it to infinity is the same as always
-    /// playing the strategy with the highest regret. Zero is equivalent to playing each action
-    /// uniformly. No other values are recommend, but interpolate between those extremes.
-    pub no_positive: f64,
+// ---- prelude fragment: ideal.rs ----
+// Floating point, layer 2 ("idealised real" mode of DESIGN.md 3.2): machine arithmetic treated as
+// mathematical.  rv maps a float to the real it denotes; rounding, overflow, NaN and signed zero are
+// ignored.  Used only where the property is a statement of real arithmetic.
+pub uninterp spec fn rv(x: f64) -> real;
+pub broadcast axiom fn ax_rv_add(a: f64, b: f64) ensures rv(#[trigger] fadd(a, b)) == rv(a) + rv(b);
+pub broadcast axiom fn ax_rv_sub(a: f64, b: f64) ensures rv(#[trigger] fsub(a, b)) == rv(a) - rv(b);
+pub broadcast axiom fn ax_rv_mul(a: f64, b: f64) ensures rv(#[trigger] fmul(a, b)) == rv(a) * rv(b);
+pub broadcast axiom fn ax_rv_div(a: f64, b: f64) ensures rv(b) != 0real ==> rv(#[trigger] fdiv(a, b)) == rv(a) / rv(b);
+pub broadcast axiom fn ax_rv_neg(a: f64) ensures rv(#[trigger] fneg(a)) == 0real - rv(a);
+pub broadcast axiom fn ax_rv_cmp(a: f64, b: f64)
+    ensures #[trigger] fcmp(a, b) == (if rv(a) < rv(b) { Some(core::cmp::Ordering::Less) }
+        else if rv(a) == rv(b) { Some(core::cmp::Ordering::Equal) } else { Some(core::cmp::Ordering::Greater) });
+pub broadcast axiom fn ax_rv_eq(a: f64, b: f64) ensures #[trigger] feq(a, b) == (rv(a) == rv(b));
+pub broadcast axiom fn ax_rv_max(a: f64, b: f64) ensures rv(#[trigger] fmaxf(a, b)) == (if rv(a) >= rv(b) { rv(a) } else { rv(b) });
+pub broadcast axiom fn ax_rv_min(a: f64, b: f64) ensures rv(#[trigger] fminf(a, b)) == (if rv(a) <= rv(b) { rv(a) } else { rv(b) });
+// (idealised) powf denotes a function of the real values of its arguments
+pub uninterp spec fn rpow(x: real, y: real) -> real;
+pub broadcast axiom fn ax_rv_powf(a: f64, b: f64) ensures rv(#[trigger] fpowf(a, b)) == rpow(rv(a), rv(b));
+pub axiom fn ax_rv_lits()
+    ensures rv(0.0f64) == 0real, rv(1.0f64) == 1real, rv(2.0f64) == 2real, rv(0.5f64) * 2real == 1real;
+pub broadcast group ideal {
+    ax_rv_add, ax_rv_sub, ax_rv_mul, ax_rv_div, ax_rv_neg, ax_rv_cmp, ax_rv_eq, ax_rv_max, ax_rv_min, ax_rv_powf
 }
+// (idealised) integer-to-float casts are exact
+pub broadcast axiom fn ax_rv_u64(n: u64) ensures rv(#[trigger] u64_to_f64(n)) == n as real;
+pub broadcast axiom fn ax_rv_usize(n: usize) ensures rv(#[trigger] usize_to_f64(n)) == n as real;
+pub broadcast group ideal_casts { ax_rv_u64, ax_rv_usize }
 
-// R5: the four update helpers of RegretParams seen from their callers: each is a PURE function of its
-// arguments with a frame (regret_match and cum_regret do not modify the regrets).  These contracts
-// are discharged per helper by Kani harnesses on the real bodies (c08_regret_match_*,
-// c08_discount_cum_regret, c08_discount_average_strat, c02_cum_regret_formula: formula + frame,
-// bounded to slices of length <= 3), so they are cited at the bounded level, assumed beyond it.
-pub uninterp spec fn rm_spec(p: RegretParams, cum_reg: Seq<f64>) -> Seq<f64>;
-pub uninterp spec fn dcr_spec(p: RegretParams, it: u64, cum_reg: Seq<f64>) -> Seq<f64>;
-pub uninterp spec fn das_spec(p: RegretParams, it: u64, avg: Seq<f64>) -> Seq<f64>;
-pub uninterp spec fn cr_spec(p: RegretParams, it: u64, cum_reg: Seq<f64>) -> f64;
-impl RegretParams {
+#[verifier::external_body]
+#[verifier::reject_recursive_types(K)]
+#[verifier::reject_recursive_types(V)]
+pub struct HashMap<K, V> { _p: core::marker::PhantomData<(K, V)> }
+impl<K, V> HashMap<K, V> {
+    pub uninterp spec fn view(&self) -> Map<K, V>;
     #[verifier::external_body]
-    pub fn regret_match(&self, cum_reg: &mut [f64], strat: &mut [f64])
-        ensures final(strat)@ == rm_spec(*self, old(cum_reg)@), final(cum_reg)@ == old(cum_reg)@,
-    { unimplemented!() }
-    #[verifier::external_body]
-    pub fn discount_cum_regret(&self, it: u64, cum_reg: &mut [f64])
-        ensures final(cum_reg)@ == dcr_spec(*self, it, old(cum_reg)@),
-    { unimplemented!() }
-    #[verifier::external_body]
-    pub fn discount_average_strat(&self, it: u64, avg_strat: &mut [f64])
-        ensures final(avg_strat)@ == das_spec(*self, it, old(avg_strat)@),
-    { unimplemented!() }
-    #[verifier::external_body]
-    pub fn cum_regret(&self, it: u64, cum_reg: &mut [f64]) -> (r: f64)
-        ensures r == cr_spec(*self, it, old(cum_reg)@), final(cum_reg)@ == old(cum_reg)@,
+    pub fn get(&self, k: &K) -> (r: Option<&V>)
+        ensures match r { Some(v) => self@.contains_key(*k) && *v == self@[*k], None => !self@.contains_key(*k) },
     { unimplemented!() }
 }
-
-// ---- extracted from src/solve/data.rs: struct RegretInfoset ----
-pub struct RegretInfoset {
-    pub cum_regret: Box<[f64]>,
-    pub cum_strat: Box<[f64]>,
-    pub strat: Box<[f64]>,
+// gambit_parser::Terminal: the number of the outcome attached to the leaf
+#[verifier::external_body] pub struct Terminal { }
+impl Terminal {
+    pub uninterp spec fn outcome_view(&self) -> u64;
+    #[verifier::external_body]
+    pub fn outcome(&self) -> (r: u64) ensures r == self.outcome_view() { unimplemented!() }
 }
-
-pub trait PlayerRecurse {
-    fn update_cum_strat(&mut self, prob: f64);
-    fn advance(&mut self, it: u64, params: &RegretParams) -> f64;
+// gambit_parser's chance / player nodes as far as the payoff look-up uses them
+#[verifier::external_body] pub struct GChance { }
+impl GChance {
+    pub uninterp spec fn outcome_view(&self) -> u64;
+    #[verifier::external_body]
+    pub fn outcome(&self) -> (r: u64) ensures r == self.outcome_view() { unimplemented!() }
 }
-pub struct Player { }
-pub struct Node { }
-pub trait ActiveInfo {
-    // callers pass the loop variable of `for it in 1..=max_iter`
-    fn advance<const FIRST: bool>(&mut self, it: u64, params: &RegretParams) -> f64
-        requires it >= 1;
+#[verifier::external_body] pub struct GPlayer { }
+impl GPlayer {
+    pub uninterp spec fn outcome_view(&self) -> u64;
+    #[verifier::external_body]
+    pub fn outcome(&self) -> (r: u64) ensures r == self.outcome_view() { unimplemented!() }
 }
+#[verifier::external_body] pub struct Node<'a> { _p: core::marker::PhantomData<&'a u8> }
+// gambit_parser's action labels and rational probabilities (opaque; their text / value are not part of this unit)
+#[verifier::external_body] pub struct Label { }
+impl Label { #[verifier::external_body] pub fn to_string(&self) -> (r: String) { unimplemented!() } }
+#[verifier::external_body] pub struct Rational { }
+impl Rational {
+    pub uninterp spec fn val(&self) -> Option<f64>;
+    #[verifier::external_body] pub fn to_f64(&self) -> (r: Option<f64>) ensures r == self.val() { unimplemented!() }
+}
+// `queue.extend(NODE.actions().iter().map(|(.., next)| (next, cum_pays)))`: every child of the node is queued
+// with the running payoffs as they are at this point (std chain over gambit-parser's child list)
+#[verifier::external_body]
+pub fn __queue_children<'a, N>(queue: &mut Vec<(&'a Node<'a>, [f64; 2])>, node: &N, cum_pays: [f64; 2])
+    ensures final(queue)@.len() >= old(queue)@.len(), final(queue)@.take(old(queue)@.len() as int) == old(queue)@,
+        forall|k: int| old(queue)@.len() <= k < final(queue)@.len() ==> (#[trigger] final(queue)@[k]).1 == cum_pays,
+{ unimplemented!() }
+pub open spec fn carried(c0: [f64; 2], outcome: u64, table: Map<u64, [f64; 2]>, c: [f64; 2]) -> bool {
+    if outcome == 0 { rv(c[0]) == rv(c0[0]) && rv(c[1]) == rv(c0[1]) }
+    else { rv(c[0]) == rv(c0[0]) + rv(table[outcome][0]) && rv(c[1]) == rv(c0[1]) + rv(table[outcome][1]) }
+}
+// R18: panic!(..) -- never returns
+#[verifier::external_body]
+pub fn __panic() ensures false { panic!() }
+// `for (cum, out) in cum_pays.iter_mut().zip(PAYS) { *cum += *out }`: both players' payoffs of the outcome
+// are added to the running payoffs (zip of two 2-element sequences, std; idealised reals)
+#[verifier::external_body]
+pub fn __add_outcome(cum_pays: &mut [f64; 2], pays: &[f64; 2])
+    ensures rv(final(cum_pays)[0]) == rv(old(cum_pays)[0]) + rv(pays[0]), rv(final(cum_pays)[1]) == rv(old(cum_pays)[1]) + rv(pays[1]),
+{ unimplemented!() }
+pub open spec fn rmin(a: real, b: real) -> real { if a <= b { a } else { b } }
+pub open spec fn rmax(a: real, b: real) -> real { if a >= b { a } else { b } }
 
-// ---- extracted from src/solve/vanilla.rs: impl PlayerRecurse for RegretInfoset ----
-impl PlayerRecurse for RegretInfoset {
-fn advance(&mut self, it: u64, params: &RegretParams) -> (r: f64) 
+// ---- extracted from src/gambit.rs: fn get_global_info ----
+pub fn get_global_info__leaf_sum(terminal: &Terminal, mut cum_pays: [f64; 2], outcomes: &HashMap<u64, [f64; 2]>, mut min: f64, mut max: f64, mut one_min: f64, mut one_max: f64) -> (out: (f64, f64, f64, f64))
     ensures
-        // textbook order: the next strategy is matched on the regrets BEFORE discounting ...
-        final(self).strat@ == rm_spec(*params, old(self).cum_regret@), // @ob C08.V.advance.match_before_discount
-        // ... then regrets and average strategy are discounted with the caller's iteration number ...
-        final(self).cum_regret@ == dcr_spec(*params, it, old(self).cum_regret@), // @ob C08.V.advance.discount_regrets
-        final(self).cum_strat@ == das_spec(*params, it, old(self).cum_strat@), // @ob C08.V.advance.discount_average
-        // ... and the reported bound is that of the regrets AFTER discounting, same iteration number
-        r == cr_spec(*params, it, final(self).cum_regret@), // @ob C02.V.advance.reports_bound
+        // at a leaf the analysed quantity is HALF the sum of the two players' payoffs collected along the
+        // path (interior outcomes plus the leaf's own); the running minimum / maximum of it, and of player
+        // one's payoff, are updated with this leaf
+        ({
+            let one = rv(cum_pays[0]) + rv(outcomes@[terminal.outcome_view()][0]);
+            let two = rv(cum_pays[1]) + rv(outcomes@[terminal.outcome_view()][1]);
+            rv(out.0) == rmin(rv(min), (one + two) / 2real) && rv(out.1) == rmax(rv(max), (one + two) / 2real)
+            && rv(out.2) == rmin(rv(one_min), one) && rv(out.3) == rmax(rv(one_max), one)
+        }), // @ob C15.V.gambit.constant_sum_leaf
 {
-        params.regret_match(&mut *self.cum_regret, &mut self.strat);
-        params.discount_cum_regret(it, &mut *self.cum_regret);
-        params.discount_average_strat(it, &mut self.cum_strat);
-        params.cum_regret(it, &mut *self.cum_regret)
-    }
+broadcast use fl; broadcast use ideal;
+proof { ax_obeys(); ax_rv_lits(); assume(outcomes@.contains_key(terminal.outcome_view())); } // every outcome number of the file is in the table (first traversal)
+let ghost c0 = cum_pays; let ghost min0 = min; let ghost max0 = max; let ghost omin0 = one_min; let ghost omax0 = one_max;
+
+                __add_outcome(&mut cum_pays, outcomes.get(&terminal.outcome()).unwrap());
+                let one = cum_pays[0]; let two = cum_pays[1];
+                let sum = one + (two - one) / 2.0;
+                if !sum.is_finite() {
+                    __panic();
+                }
+                min = f64::min(min, sum);
+                max = f64::max(max, sum);
+                one_min = f64::min(one_min, one);
+                one_max = f64::max(one_max, one);
+            
+(min, max, one_min, one_max)
 }
 
-// R5: std::sync::Mutex as far as `advance` uses it: get_mut() on an exclusively borrowed mutex
-// returns the protected value (lock poisoning -- the Err case -- is not modelled: assumed Ok)
-#[derive(Debug)]
-pub struct PoisonError { }
-pub struct Mutex<T> { pub inner: T }
-impl<T> Mutex<T> {
-    #[verifier::external_body]
-    pub fn get_mut(&mut self) -> (r: Result<&mut T, PoisonError>)
-        ensures r is Ok, *(r->Ok_0) == old(self).inner, final(self).inner == *final(r->Ok_0),
-    { unimplemented!() }
-}
-pub trait MutexPlayerRecurse {
-    fn advance(&mut self, it: u64, params: &RegretParams) -> f64;
+// ---- extracted from src/gambit.rs: struct GlobalInfo ----
+pub struct GlobalInfo {
+    pub infoset_names: [HashMap<u64, String>; 2],
+    pub outcomes: HashMap<u64, f64>,
+    pub sum: f64,
 }
 
-// ---- extracted from src/solve/vanilla.rs: struct MutexRegretInfoset ----
-pub struct MutexRegretInfoset {
-    pub cum_regret: Box<[f64]>,
-    pub cum_strat: Mutex<Box<[f64]>>,
-    pub strat: Box<[f64]>,
+// ---- extracted from src/gambit.rs: struct JoinedNode ----
+pub struct JoinedNode<'a> {
+    pub node: &'a Node<'a>,
+    pub info: &'a GlobalInfo,
+    pub cum_payoff: f64,
 }
 
-// ---- extracted from src/solve/vanilla.rs: impl MutexPlayerRecurse for MutexRegretInfoset ----
-impl MutexPlayerRecurse for MutexRegretInfoset {
-fn advance(&mut self, it: u64, params: &RegretParams) -> (r: f64) 
+// ---- extracted from src/gambit.rs: impl IntoGameNode for JoinedNode<'_> / fn into_game_node ----
+pub fn into_game_node__chance_payoff<'a>(self_: &JoinedNode<'a>, chance: &GChance) -> (out: f64)
     ensures
-        final(self).strat@ == rm_spec(*params, old(self).cum_regret@), // @ob C08.V.advance.match_before_discount
-        final(self).cum_regret@ == dcr_spec(*params, it, old(self).cum_regret@), // @ob C08.V.advance.discount_regrets
-        final(self).cum_strat.inner@ == das_spec(*params, it, old(self).cum_strat.inner@), // @ob C08.V.advance.discount_average
-        r == cr_spec(*params, it, final(self).cum_regret@), // @ob C02.V.advance.reports_bound
+        // outcome number 0 means "no outcome here": nothing is added; otherwise player one's payoff of
+        // THIS node's outcome, read from the table by its number
+        out == (if chance.outcome_view() == 0 { 0.0f64 } else { self_.info.outcomes@[chance.outcome_view()] }), // @ob C15.V.gambit.interior_payoff
 {
-        params.regret_match(&mut *self.cum_regret, &mut self.strat);
-        params.discount_cum_regret(it, &mut *self.cum_regret);
-        params.discount_average_strat(it, self.cum_strat.get_mut().unwrap());
-        params.cum_regret(it, &mut *self.cum_regret)
-    }
+proof { assume(self_.info.outcomes@.contains_key(chance.outcome_view())); } // outcome numbers of the file are in the table
+if chance.outcome() == 0 {
+                    0.0
+                } else {
+                    *self_.info.outcomes.get(&chance.outcome()).unwrap()
+                }
 }
 
-// ---- extracted from src/solve/external.rs: struct CachedInfoset ----
-pub struct CachedInfoset {
-    pub reg: RegretInfoset,
-    pub cached: usize,
-}
-
-// ---- extracted from src/solve/external.rs: impl ActiveInfo for CachedInfoset ----
-impl ActiveInfo for CachedInfoset {
-fn advance<const FIRST: bool>(&mut self, it: u64, params: &RegretParams) -> (r: f64) 
+// ---- extracted from src/gambit.rs: impl IntoGameNode for JoinedNode<'_> / fn into_game_node ----
+pub fn into_game_node__player_payoff<'a>(self_: &JoinedNode<'a>, player: &GPlayer) -> (out: f64)
     ensures
-        // textbook order: the next strategy is matched on the regrets BEFORE discounting ...
-        final(self).reg.strat@ == rm_spec(*params, old(self).reg.cum_regret@), // @ob C08.V.advance.match_before_discount
-        // ... then regrets and average strategy are discounted with the caller's iteration number ...
-        final(self).reg.cum_regret@ == dcr_spec(*params, it, old(self).reg.cum_regret@), // @ob C08.V.advance.discount_regrets
-        final(self).reg.cum_strat@ == das_spec(*params, (if FIRST { (it - 1) as u64 } else { it }), old(self).reg.cum_strat@), // @ob C08.V.advance.discount_average
-        // ... and the reported bound is that of the regrets AFTER discounting, same iteration number
-        r == cr_spec(*params, it, final(self).reg.cum_regret@), // @ob C02.V.advance.reports_bound
-        final(self).cached == 0, // @ob C10.V.cached_infoset.advance_resets_draw
+        out == (if player.outcome_view() == 0 { 0.0f64 } else { self_.info.outcomes@[player.outcome_view()] }), // @ob C15.V.gambit.interior_payoff
 {
-        self.cached = 0;
-        params.regret_match(&mut *self.reg.cum_regret, &mut self.reg.strat);
-        params.discount_cum_regret(it, &mut *self.reg.cum_regret);
-        // NOTE since we alternate updates, when do the first discounting of player one's average
-        // strat, they'll actually have nothing acumulated, so we actualy want to update on the
-        // second round
-        params.discount_average_strat(if FIRST { it - 1 } else { it }, &mut self.reg.cum_strat);
-        params.cum_regret(it, &mut *self.reg.cum_regret)
-    }
+proof { assume(self_.info.outcomes@.contains_key(player.outcome_view())); }
+if player.outcome() == 0 {
+                    0.0
+                } else {
+                    *self_.info.outcomes.get(&player.outcome()).unwrap()
+                }
+}
+
+// ---- extracted from src/gambit.rs: impl IntoGameNode for JoinedNode<'_> / fn into_game_node ----
+pub fn into_game_node__chance_child<'a>(act: &Label, prob: &Rational, node: &'a Node<'a>, self_: &JoinedNode<'a>, node_payoff: f64) -> (out: (String, f64, JoinedNode<'a>))
+    ensures
+        out.2.node == node && out.2.info == self_.info && rv(out.2.cum_payoff) == rv(self_.cum_payoff) + rv(node_payoff), // @ob C15.V.gambit.child_inherits_payoffs
+        Some(out.1) == prob.val(), // @ob C15.V.gambit.child_inherits_payoffs
+{
+broadcast use fl; broadcast use ideal;
+proof { ax_obeys(); ax_rv_lits(); assume(prob.val() is Some); } // probabilities of a parsed file convert
+
+                        (
+                            act.to_string(),
+                            prob.to_f64().unwrap(),
+                            JoinedNode {
+                                node,
+                                info: self_.info,
+                                cum_payoff: self_.cum_payoff + node_payoff,
+                            },
+                        )
+                    }
+
+// ---- extracted from src/gambit.rs: impl IntoGameNode for JoinedNode<'_> / fn into_game_node ----
+pub fn into_game_node__player_child<'a>(act: &Label, node: &'a Node<'a>, self_: &JoinedNode<'a>, node_payoff: f64) -> (out: (String, JoinedNode<'a>))
+    ensures
+        out.1.node == node && out.1.info == self_.info && rv(out.1.cum_payoff) == rv(self_.cum_payoff) + rv(node_payoff), // @ob C15.V.gambit.child_inherits_payoffs
+{
+broadcast use fl; broadcast use ideal;
+proof { ax_obeys(); ax_rv_lits(); }
+
+                        (
+                            act.to_string(),
+                            JoinedNode {
+                                node,
+                                info: self_.info,
+                                cum_payoff: self_.cum_payoff + node_payoff,
+                            },
+                        )
+                    }
+
+// ---- extracted from src/gambit.rs: fn get_global_info ----
+pub fn get_global_info__chance_carries<'a>(chance: &GChance, mut cum_pays: [f64; 2], outcomes: &HashMap<u64, [f64; 2]>, queue: &mut Vec<(&'a Node<'a>, [f64; 2])>)
+    ensures
+        // the analysis carries BOTH players' payoffs of an interior node's outcome (none for outcome 0) down
+        // to every child, from the same table and by the same number as the conversion of the tree does
+        final(queue)@.len() >= old(queue)@.len() && final(queue)@.take(old(queue)@.len() as int) == old(queue)@,
+        forall|k: int| old(queue)@.len() <= k < final(queue)@.len() ==> carried(cum_pays, chance.outcome_view(), outcomes@, (#[trigger] final(queue)@[k]).1), // @ob C15.V.gambit.constant_sum_interior
+{
+broadcast use fl; broadcast use ideal;
+proof { ax_obeys(); ax_rv_lits(); assume(outcomes@.contains_key(chance.outcome_view())); }
+let ghost c0 = cum_pays;
+
+                if chance.outcome() != 0 {
+                    __add_outcome(&mut cum_pays, outcomes.get(&chance.outcome()).unwrap());
+                }
+                __queue_children(queue, chance, cum_pays);
+            }
+
+// ---- extracted from src/gambit.rs: fn get_global_info ----
+pub fn get_global_info__player_carries<'a>(player: &GPlayer, mut cum_pays: [f64; 2], outcomes: &HashMap<u64, [f64; 2]>, queue: &mut Vec<(&'a Node<'a>, [f64; 2])>)
+    ensures
+        // the analysis carries BOTH players' payoffs of an interior node's outcome (none for outcome 0) down
+        // to every child, from the same table and by the same number as the conversion of the tree does
+        final(queue)@.len() >= old(queue)@.len() && final(queue)@.take(old(queue)@.len() as int) == old(queue)@,
+        forall|k: int| old(queue)@.len() <= k < final(queue)@.len() ==> carried(cum_pays, player.outcome_view(), outcomes@, (#[trigger] final(queue)@[k]).1), // @ob C15.V.gambit.constant_sum_interior
+{
+broadcast use fl; broadcast use ideal;
+proof { ax_obeys(); ax_rv_lits(); assume(outcomes@.contains_key(player.outcome_view())); }
+let ghost c0 = cum_pays;
+
+                if player.outcome() != 0 {
+                    __add_outcome(&mut cum_pays, outcomes.get(&player.outcome()).unwrap());
+                }
+                __queue_children(queue, player, cum_pays);
+            }
+
+// ---- extracted from src/gambit.rs: fn get_global_info ----
+pub fn get_global_info__offset(min: f64, max: f64) -> (out: f64)
+    ensures
+        rv(out) == (rv(min) + rv(max)) / 2real, // @ob C15.V.gambit.offset_is_midpoint
+{
+broadcast use fl; broadcast use ideal;
+proof { ax_obeys(); ax_rv_lits(); }
+min + (max - min) / 2.0
 }
 
 
@@ -369,7 +454,7 @@ fn advance<const FIRST: bool>(&mut self, it: u64, params: &RegretParams) -> (r: 
 pub proof fn __canary_must_fail()
     ensures false, // @ob __canary
 {
-    broadcast use fl; ax_obeys();
+    broadcast use fl; broadcast use ideal; ax_obeys(); ax_rv_lits();
 }
 
 } // verus!
